@@ -291,6 +291,142 @@ def struct_cache(ctx):
     ctx.cell("two-cstructs-same-names")
 
 
+def custom_types(ctx):
+    """One user-defined type class registered on several cstruct objects (different byte order and size): every
+    object keeps its own binding, whatever is registered elsewhere afterwards."""
+    from dissect.cstruct.types import BaseType
+
+    class Fixed(BaseType):
+        """size-byte unsigned integer in the byte order of the owning cstruct object, as a plain int"""
+
+        @classmethod
+        def __default__(cls):
+            return 0
+
+        @classmethod
+        def _read(cls, stream, context=None):
+            data = stream.read(cls.size)
+            if len(data) != cls.size:
+                raise EOFError
+            return int.from_bytes(data, "little" if cls.cs.endian == "<" else "big")
+
+        @classmethod
+        def _write(cls, stream, data):
+            return stream.write(int(data).to_bytes(cls.size, "little" if cls.cs.endian == "<" else "big"))
+
+    raw = bytes(range(1, 33))
+    objs = []
+    for order in ([("<", 3), (">", 5), ("<", 2)], [(">", 4), ("<", 4), (">", 1)]):
+        objs.clear()
+        for endian, size in order:
+            cs = lib.cstruct(endian=endian)
+            cs.add_custom_type("fixed", Fixed, size)
+            cs.load("struct rec { uint8 tag; fixed v; fixed w[2]; uint8 end; };")
+            objs.append((cs, endian, size))
+            # after every registration every object registered so far is looked at again
+            for cs_i, e_i, n_i in objs:
+                ctx.evaluation(("custom-types", tuple(order), len(objs), e_i, n_i))
+                ctx.cell("custom-type-on-several-cstructs")
+                bo = "little" if e_i == "<" else "big"
+                want = (n_i, [int.from_bytes(raw[1 + k * n_i:1 + (k + 1) * n_i], bo) for k in range(3)], raw[1 + 3 * n_i],
+                        2 + 3 * n_i)
+                try:
+                    o = cs_i.rec(raw)
+                    got = (len(cs_i.fixed), [int(o.v), int(o.w[0]), int(o.w[1])], int(o.end), len(o.dumps()))
+                    if o.dumps() != raw[:2 + 3 * n_i] or cs_i.fixed.cs is not cs_i or cs_i.fixed is Fixed:
+                        got = ("binding", cs_i.fixed.cs is cs_i, cs_i.fixed is Fixed, o.dumps().hex())
+                except Exception as e:  # noqa: BLE001
+                    got = lib.exc_sig(e)
+                if got != want:
+                    ctx.violation("history", "custom-type-binding-leaks-between-cstruct-objects",
+                                  {"workload": "custom-types", "order": order, "registered": len(objs), "object": [e_i, n_i],
+                                   "got": repr(got), "want": repr(want)})
+                else:
+                    ctx.event("custom_type_bindings_checked")
+
+
+def copies(ctx, n):
+    """copy.deepcopy of an instance is an equal, independent instance: mutating either leaves the other alone (also
+    for unions, whose nested structures write back into the union they belong to)."""
+    for i in range(n):
+        rng = ctx.rng("copies", i)
+        case = engine.make_case(rng, dyn_unions=False, unions=i % 2 == 0, ptrs=False, eof=False, fixed_only=True,
+                                bias="unions" if i % 2 == 0 else None)
+        top = case["top"]
+        cfgd = {"endian": rng.choice("<>"), "align": rng.random() < 0.5, "compiled": rng.random() < 0.5, "ptr": "uint64"}
+        cfg = engine.mcfg(case, cfgd["endian"], cfgd["align"])
+        cs, err = engine.load_cfg(ctx, case, cfgd)
+        if cs is None:
+            continue
+        try:
+            inp = engine.model_input(case, cfg, rng)[0]
+        except model.ModelUnsupported:
+            continue
+        r = outcome(cs.T, inp)
+        if r[0] != "ok":
+            continue
+        obj = r[1]
+        ctx.evaluation(("copies", case["text"], tuple(sorted(cfgd.items())), inp.hex()))
+        ctx.cell("deepcopy", "deepcopy:union" if gen.has_union(top) else "deepcopy:plain")
+        det = case_detail(case, cfg=cfgd, data=inp, workload="copies")
+        try:
+            dup = copy.deepcopy(obj)
+            before = lib.nan_clean(lib.norm(obj, top, strict=False))
+            if lib.nan_clean(lib.norm(dup, top, strict=False)) != before or dup.dumps() != obj.dumps():
+                ctx.violation("history", "deep-copy-differs-from-the-original", det)
+                continue
+            shared = set()
+            a, b = {}, {}
+            walk_mutables(obj, top, a)
+            walk_mutables(dup, top, b)
+            shared = set(a) & set(b)
+            if shared:
+                ctx.violation("aliasing", "deep-copy-shares-a-mutable-object-with-the-original",
+                              dict(det, where=[a[k] for k in shared][:5]))
+                continue
+            # overwrite the copy with another value, field by field; the original must not notice
+            other = outcome(cs.T, engine.model_input(case, cfg, rng)[0])
+            if other[0] == "ok":
+                for f in type(lib.unwrap(dup)).__fields__:
+                    try:
+                        setattr(dup, f._name, getattr(other[1], f._name))
+                    except Exception:  # noqa: BLE001
+                        pass
+                walk_and_poke(dup, rng)
+            if lib.nan_clean(lib.norm(obj, top, strict=False)) != before:
+                ctx.violation("history", "original-changed-through-its-deep-copy", det)
+                continue
+            ctx.event("deep_copies_checked")
+        except Exception as e:  # noqa: BLE001
+            ctx.violation("history", f"deep-copy-raises:{type(e).__name__}", dict(det, error=lib.exc_sig(e)))
+
+
+def walk_and_poke(obj, rng, depth=0):
+    """Write through every nested structure reachable from obj (first integer field found gets its own value back
+    xor 1): in a union this goes through the proxies, which rebuild the union they belong to."""
+    from dissect.cstruct import Pointer, Structure
+
+    o = lib.unwrap(obj)
+    if not isinstance(o, Structure) or depth > 4:
+        return
+    for f in type(o).__fields__:
+        try:
+            v = getattr(obj, f._name)
+        except Exception:  # noqa: BLE001
+            continue
+        if isinstance(v, Pointer):
+            continue
+        if isinstance(lib.unwrap(v), Structure):
+            walk_and_poke(v, rng, depth + 1)
+        elif type(v) is int or (isinstance(v, int) and not isinstance(v, bool) and f.bits is None and not hasattr(v, "name")):
+            try:
+                setattr(obj, f._name, int(v) ^ 1)
+            except Exception:  # noqa: BLE001
+                pass
+        elif isinstance(v, list) and v and isinstance(lib.unwrap(v[0]), Structure):
+            walk_and_poke(v[0], rng, depth + 1)
+
+
 def load_histories(ctx, n):
     """Several load() calls on one cstruct object: what a load defines depends on its own text and options only, not
     on the options of an earlier load (align / compiled given there and omitted here) nor on equally named inline
@@ -355,7 +491,9 @@ def load_histories(ctx, n):
 def run(ctx):
     if ctx.shard == 0:
         struct_cache(ctx)
+        custom_types(ctx)
     load_histories(ctx, 6 if not ctx.thorough else 120)
+    copies(ctx, 10 if not ctx.thorough else 250)
     for i in range(N_HIST[ctx.tier]):
         if ctx.out_of_time():
             break
@@ -377,6 +515,12 @@ def replay(ctx, detail):
     print("definition:\n" + detail.get("text", ""))
     print({k: v for k, v in detail.items() if k not in ("ast", "text")})
     struct_cache(ctx)
+    if detail.get("workload") == "custom-types":
+        custom_types(ctx)
+        return
+    if detail.get("workload") == "copies":
+        copies(ctx, 250)
+        return
     if detail.get("workload") == "load-histories":
         load_histories(ctx, 120)
         return
